@@ -104,6 +104,63 @@ def _receiver_chain(t: Term) -> List[Term]:
     return out
 
 
+def pop_loops_test_emptiness(ck, rule):
+    """`while <test of xs[-1]>: xs.pop()` evaluates xs[-1] again after every pop: unless the loop condition itself asks whether the
+    list still has elements, a list whose every element passes the test ends in IndexError. An `if xs:` in front of the loop
+    decides once, before the first pop."""
+    p = ck.ctx.p
+    ck.clause(rule, "a loop that pops from a list while it tests the list's last (first) element asks in its own condition whether the "
+                    "list still has elements: AlignmentSegment.slice strips unaligned labels from the end of what it kept - a window with "
+                    "no pair in it would raise IndexError inside conflict resolution and end the run")
+    n = 0
+    hits = 0
+    for f in run_reach(ck.ctx):
+        if f.is_lambda:
+            continue
+        for lp in [x for x in ast.walk(f.node) if isinstance(x, ast.While)]:
+            popped = {c.func.value.id for st in lp.body for c in ast.walk(st) if isinstance(c, ast.Call) and isinstance(c.func, ast.Attribute)
+                      and c.func.attr == "pop" and isinstance(c.func.value, ast.Name) and len(c.args) <= 1}
+            for xs in sorted(popped):
+                ends = [x for x in ast.walk(lp) if isinstance(x, ast.Subscript) and isinstance(x.value, ast.Name) and x.value.id == xs
+                        and ((isinstance(x.slice, ast.UnaryOp) and isinstance(x.slice.op, ast.USub)) or
+                             (isinstance(x.slice, ast.Constant) and x.slice.value == 0))]
+                if not ends:
+                    continue
+                n += 1
+                # the condition asks for emptiness: `xs and ...`, `len(xs) ...`, and the subscript comes after it in an `and`
+                t = lp.test
+                first = t.values[0] if isinstance(t, ast.BoolOp) and isinstance(t.op, ast.And) else None
+                if first is None:
+                    first = t               # the whole condition: `while xs:` / `while len(xs) > 0:`
+                if isinstance(t, ast.Constant) and t.value is True and lp.body and isinstance(lp.body[0], ast.If) \
+                        and isinstance(lp.body[0].test, ast.UnaryOp) and isinstance(lp.body[0].test.op, ast.Not) \
+                        and isinstance(lp.body[0].test.operand, ast.Name) and lp.body[0].test.operand.id == xs \
+                        and isinstance(lp.body[0].body[-1], (ast.Break, ast.Return)):
+                    first = lp.body[0].test.operand          # `while True: if not xs: break`
+                asks = first is not None and (
+                    (isinstance(first, ast.Name) and first.id == xs) or
+                    any(isinstance(c, ast.Call) and ast.unparse(c.func) == "len" and c.args and isinstance(c.args[0], ast.Name) and c.args[0].id == xs
+                        for c in ast.walk(first)))
+                construct = f"{short(f)}:{xs}:pop-loop"
+                if asks:
+                    ck.ok(rule, construct, where(f, lp), "the loop condition tests the list before it subscripts it")
+                    continue
+                try_guard = any(isinstance(a, ast.Try) and any(x is lp for x in ast.walk(a)) and any(
+                    h.type is None or "IndexError" in ast.unparse(h.type) or "Exception" in ast.unparse(h.type) for h in a.handlers)
+                    for a in ast.walk(f.node))
+                if try_guard:
+                    ck.ok(rule, construct, where(f, lp), "IndexError of the exhausted list is caught")
+                    continue
+                hits += 1
+                ck.violation(rule, construct, where(f, lp),
+                             f"`{xs}[-1]` is evaluated again after every `{xs}.pop()` and the loop condition never asks whether `{xs}` "
+                             "still has elements: when every element passes the test the last pop is followed by IndexError (a slice "
+                             "window that holds only unaligned labels beyond its end - inside the conflict resolution of two overlapping "
+                             "segments, in the worker or in the join: the run ends)",
+                             found=f"while {ast.unparse(lp.test)[:120]}", required=f"while {xs} and ...")
+    ck.floor(rule + " pop loops that test an end of the list", n, 1)
+
+
 def bare_flag_value(ck, rule):
     """argparse: an option declared with nargs='?' may be given WITHOUT a value ([-o [OUTPUTFILE]] in the usage line); the value is
     then `const` - None unless declared - not `default`. An option whose default is a usable object (sys.stdout) and whose consumers
@@ -606,6 +663,8 @@ def run(ck):
         rewinds_before_sniffing(ck, "C07.G25")
     if ck.wants("C07.G26"):
         bare_flag_value(ck, "C07.G26")
+    if ck.wants("C07.G27"):
+        pop_loops_test_emptiness(ck, "C07.G27")
     ck.clause("C07.G23", "output directories are created with exist_ok=True: the same command run twice (or two modes into one place) "
                          "must not abort on the directory the first run left - argparse has already truncated the -o file by then")
     n_mk = 0
